@@ -12,6 +12,7 @@ int drv_threads(int argc, char **argv);
 int drv_strerr(int argc, char **argv);
 int drv_dargs(int argc, char **argv);
 int drv_keyres(int argc, char **argv);
+int drv_keydiff(int argc, char **argv);
 int drv_sgl(int argc, char **argv);
 int drv_kinds(int argc, char **argv);
 int drv_invalid(int argc, char **argv);
@@ -47,6 +48,8 @@ main(int argc, char **argv)
                 return drv_threads(argc - 2, argv + 2);
         if (!strcmp(argv[1], "keyres"))
                 return drv_keyres(argc - 2, argv + 2);
+        if (!strcmp(argv[1], "keydiff"))
+                return drv_keydiff(argc - 2, argv + 2);
         if (!strcmp(argv[1], "dargs"))
                 return drv_dargs(argc - 2, argv + 2);
         if (!strcmp(argv[1], "strerr"))
